@@ -171,6 +171,155 @@ def diffWith (store : Assoc Bytes (List Entry)) (depth : Nat) (st : DState) (l r
   let acc := mergeLevel [] .none (l.length + r.length + 1) l r ⟨[], st'.trees, st'.cid⟩
   runLayers store depth acc.queue acc.recs acc.cid
 
+/-! ### path tracking: the `Visit` calls of the walk and the `Recorder`
+
+The `Visit` calls that `gix_diff::tree()` (function.rs) makes, in order, and
+the `Recorder` (recorder.rs, `Location::Path`) that turns them into paths.
+
+The walk above hands every record the full path of its entry directly (`dir ++ [name]`). The real
+code never has that path: it tells the delegate to push/pop components
+(`push_path_component`, `pop_path_component`), to remember the current path for a scheduled sub-tree
+(`push_back_tracked_path_component`, which also pushes the component) and to restore the path of
+the next queued sub-tree (`pop_front_tracked_path_and_set_current`); the `Recorder` keeps a current
+`path` and a `path_deque` and stamps `path.clone()` on every change it is shown.
+
+Transcribed here:
+  `Ev`            one delegate call (`visit` carries the change WITHOUT a path, as `visit::Change`);
+  `deleteEv`, `addEv`, `equalEv`   the calls of `delete_entry_schedule_recursion`,
+                  `add_entry_schedule_recursion`, `handle_lhs_and_rhs_with_equal_filenames`, in order;
+  `mergeLevelEv`  the calls while one directory is walked: every handler call after the first of a
+                  directory is preceded by ONE `pop_path_component` (main loop: `if pop_path { .. }` at
+                  the top of the iteration; `catchup_*`: the `pop_path_component()` in front of every
+                  further handler call), and one more `pop` when both iterators are exhausted
+                  (`pop_path` is still true in the `(None, None)` iteration unless the directory
+                  was empty);
+  `runLayerEv`, `runLayersEv`, `diffEv`   the queue: `pop_front_tracked_path_and_set_current` before
+                  the trees of an item are loaded (so also in front of a find error), `pop_path = false`.
+  `RS`, `recStep`, `runEvs`   the `Recorder`: `path` as the list of components (the real `BString` is
+                  the components joined by `/`; `pop_element` cuts at the last `/`, which is the last
+                  component for slash-free names), `path_deque`, `records`; `none` = the `expect`
+                  in `pop_front_tracked_path_and_set_current` fails.
+The walk itself (which handler runs when, `change_id`, the queue) is the one above:
+the event functions recurse exactly like `mergeLevel`/`runLayer`/`runLayers`.
+-/
+
+/-- `visit::Change` (no path) -/
+inductive RawChange where
+  | add (mode : Nat) (oid : Bytes) (rel : Rel)
+  | del (mode : Nat) (oid : Bytes) (rel : Rel)
+  | mod (pmode : Nat) (poid : Bytes) (mode : Nat) (oid : Bytes)
+  deriving Repr, DecidableEq
+
+/-- `Recorder::visit`: stamp the current path -/
+def RawChange.withPath (p : Path) : RawChange → Change
+  | .add m o r => .add p m o r
+  | .del m o r => .del p m o r
+  | .mod pm po m o => .mod p pm po m o
+
+/-- one call on the `Visit` delegate -/
+inductive Ev where
+  | popFront
+  | pushBack (name : Bytes)
+  | push (name : Bytes)
+  | pop
+  | visit (c : RawChange)
+  deriving Repr, DecidableEq
+
+/-- `delete_entry_schedule_recursion` -/
+def deleteEv (rel : Rel) (e : Entry) (acc : Acc) : List Ev :=
+  let r := relFor rel e.isTree acc.cid
+  [.push e.name, .visit (.del e.mode e.oid r.1)] ++
+    (if e.isTree then [.pop, .pushBack e.name] else [])
+
+/-- `add_entry_schedule_recursion` -/
+def addEv (rel : Rel) (e : Entry) (acc : Acc) : List Ev :=
+  let r := relFor rel e.isTree acc.cid
+  [.push e.name, .visit (.add e.mode e.oid r.1)] ++
+    (if e.isTree then [.pop, .pushBack e.name] else [])
+
+/-- `handle_lhs_and_rhs_with_equal_filenames` -/
+def equalEv (rel : Rel) (a b : Entry) (acc : Acc) : List Ev :=
+  match a.isTree, b.isTree with
+  | true, true =>
+    [.pushBack a.name] ++ (if a.oid != b.oid then [.visit (.mod a.mode a.oid b.mode b.oid)] else [])
+  | false, true =>
+    let r := relFor rel true acc.cid
+    [.pushBack a.name, .visit (.del a.mode a.oid .none), .visit (.add b.mode b.oid r.1)]
+  | true, false =>
+    let r := relFor rel true acc.cid
+    [.pushBack a.name, .visit (.del a.mode a.oid r.1), .visit (.add b.mode b.oid .none)]
+  | false, false =>
+    [.push a.name] ++
+      (if a.oid != b.oid || a.mode != b.mode then [.visit (.mod a.mode a.oid b.mode b.oid)] else [])
+
+/-- `if pop_path { delegate.pop_path_component() }` / the pop in front of a handler call in `catchup_*` -/
+def prePop (popPath : Bool) : List Ev := if popPath then [.pop] else []
+
+/-- the delegate calls while one directory is walked (same recursion as `mergeLevel`) -/
+def mergeLevelEv (dir : Path) (rel : Rel) : Nat → List Entry → List Entry → Acc → Bool → List Ev
+  | 0, _, _, _, _ => []
+  | _ + 1, [], [], _, pp => prePop pp
+  | fuel + 1, a :: l, [], acc, pp =>
+    prePop pp ++ deleteEv rel a acc ++ mergeLevelEv dir rel fuel l [] (deleteEntry dir rel a acc) true
+  | fuel + 1, [], b :: r, acc, pp =>
+    prePop pp ++ addEv rel b acc ++ mergeLevelEv dir rel fuel [] r (addEntry dir rel b acc) true
+  | fuel + 1, a :: l, b :: r, acc, pp =>
+    match entryCmp a b with
+    | .eq => prePop pp ++ equalEv rel a b acc ++ mergeLevelEv dir rel fuel l r (handleEqual dir rel a b acc) true
+    | .lt => prePop pp ++ deleteEv rel a acc ++ mergeLevelEv dir rel fuel l (b :: r) (deleteEntry dir rel a acc) true
+    | .gt => prePop pp ++ addEv rel b acc ++ mergeLevelEv dir rel fuel (a :: l) r (addEntry dir rel b acc) true
+
+/-- the delegate calls for the items of one layer (same recursion as `runLayer`) -/
+def runLayerEv (store : Assoc Bytes (List Entry)) : List QItem → Acc → List Ev
+  | [], _ => []
+  | it :: rest, acc =>
+    match loadItem store it with
+    | none => [.popFront]
+    | some (tl, tr) =>
+      [.popFront] ++ mergeLevelEv it.path it.rel (tl.length + tr.length + 1) tl tr acc false ++
+        runLayerEv store rest (mergeLevel it.path it.rel (tl.length + tr.length + 1) tl tr acc)
+
+/-- the delegate calls for the whole queue (same recursion as `runLayers`) -/
+def runLayersEv (store : Assoc Bytes (List Entry)) : Nat → List QItem → List Change → Nat → List Ev
+  | 0, _, _, _ => []
+  | depth + 1, q, recs, cid =>
+    if q.isEmpty then []
+    else runLayerEv store q ⟨recs, [], cid⟩ ++
+      (match runLayer store q ⟨recs, [], cid⟩ with
+       | none => []
+       | some acc => runLayersEv store depth acc.queue acc.recs acc.cid)
+
+/-- all delegate calls of `gix_diff::tree(lhs, rhs, ..)` -/
+def diffEv (store : Assoc Bytes (List Entry)) (depth : Nat) (l r : List Entry) : List Ev :=
+  let acc := mergeLevel [] .none (l.length + r.length + 1) l r ⟨[], [], 0⟩
+  mergeLevelEv [] .none (l.length + r.length + 1) l r ⟨[], [], 0⟩ false ++
+    runLayersEv store depth acc.queue acc.recs acc.cid
+
+/-- the `Recorder` (`Location::Path`) -/
+structure RS where
+  path : Path
+  deque : List Path
+  recs : List Change
+  deriving Repr, DecidableEq
+
+/-- one delegate call on the `Recorder` -/
+def recStep (rs : RS) : Ev → Option RS
+  | .popFront =>
+    match rs.deque with
+    | p :: d => some { rs with path := p, deque := d }
+    | [] => none   -- expect("every parent is set only once")
+  | .pushBack n => some { rs with path := rs.path ++ [n], deque := rs.deque ++ [rs.path ++ [n]] }
+  | .push n => some { rs with path := rs.path ++ [n] }
+  | .pop => some { rs with path := rs.path.dropLast }
+  | .visit c => some { rs with recs := rs.recs ++ [c.withPath rs.path] }
+
+def runEvs : RS → List Ev → Option RS
+  | rs, [] => some rs
+  | rs, e :: es =>
+    match recStep rs e with
+    | none => none
+    | some rs' => runEvs rs' es
+
 /-! ### driver -/
 
 def relStr : Rel → String
@@ -184,6 +333,15 @@ def changeStr : Change → String
   | .add p m o r => s!"A:{pathHex p}:{C04.octStr m}:{hexOfBytes o}:{relStr r}"
   | .del p m o r => s!"D:{pathHex p}:{C04.octStr m}:{hexOfBytes o}:{relStr r}"
   | .mod p pm po m o => s!"M:{pathHex p}:{C04.octStr pm}:{hexOfBytes po}:{C04.octStr m}:{hexOfBytes o}"
+
+def evStr : Ev → String
+  | .popFront => "F"
+  | .pushBack n => s!"B:{hexOfBytes n}"
+  | .push n => s!"P:{hexOfBytes n}"
+  | .pop => "O"
+  | .visit (.add m o r) => s!"VA:{C04.octStr m}:{hexOfBytes o}:{relStr r}"
+  | .visit (.del m o r) => s!"VD:{C04.octStr m}:{hexOfBytes o}:{relStr r}"
+  | .visit (.mod pm po m o) => s!"VM:{C04.octStr pm}:{hexOfBytes po}:{C04.octStr m}:{hexOfBytes o}"
 
 def takeTrees : Nat → List String → Option (Assoc Bytes (List Entry) × List String)
   | 0, rest => some ([], rest)
@@ -249,6 +407,23 @@ def handle? : List String → Option String
         | .ok recs => some (if recs.isEmpty then "none" else String.intercalate "," (recs.map changeStr))
         | .errFind => some "err:find"
         | .fuel => some "fuel"
+      | _, _ => some "err:root"
+    | _ => none
+  | "e" :: k :: rest => do
+    -- the delegate calls themselves, in order (`!err`: the walk ended with an error)
+    let k ← k.toNat?
+    let (store, rest) ← takeTrees k rest
+    match rest with
+    | [a, b] =>
+      let a ← bytesOfHex a
+      let b ← bytesOfHex b
+      match aget a store, aget b store with
+      | some ta, some tb =>
+        let evs := (diffEv store (store.length + 1) ta tb).map evStr
+        let evs := match diff store (store.length + 1) ta tb with
+          | .ok _ => evs
+          | _ => evs ++ ["!err"]
+        some (if evs.isEmpty then "none" else String.intercalate "," evs)
       | _, _ => some "err:root"
     | _ => none
   | _ => none
